@@ -15,7 +15,7 @@ use embedded_graphics::{
     iterator::raw::RawDataSlice,
     mono_font::MonoTextStyleBuilder,
     pixelcolor::{
-        raw::{BigEndianLsb0, LittleEndianMsb0, RawData, RawU1, RawU16, RawU24, RawU32, RawU4, RawU8},
+        raw::{BigEndianLsb0, LittleEndianMsb0, RawData, RawU1, RawU16, RawU2, RawU24, RawU32, RawU4, RawU8},
         *,
     },
     prelude::*,
@@ -194,7 +194,7 @@ impl<'c, 'r, 'x, C: ZCol> Visitor<C> for V<'c, 'r, 'x> {
         let Some(bb) = monitored(self.ctx, "bounding_box", &case, || d.bbox()) else {
             return;
         };
-        let budget = budget_for(&bb, self.stroke_extra);
+        let budget = budget_for(&bb, self.stroke_extra) + desc.overlap_allowance();
         let area = bb.size.width as u64 * bb.size.height as u64;
         // draw on a native counting target through a random adapter stack
         let stack = gen_stack(rng);
@@ -559,6 +559,83 @@ fn rejections(ctx: &mut Ctx, rng: &mut Rng) {
     ctx.nontrivial(egmon::rng::mix(egmon::rng::mix(p.x as u64, p.y as u64), idx as u64));
 }
 
+/// draws a drawable on a real target (a Framebuffer) under the monitors
+struct OnTarget<'t, 'c, 'r, T> {
+    t: &'t mut T,
+    ctx: &'c mut Ctx<'r>,
+    name: &'static str,
+}
+impl<'t, 'c, 'r, C: ZCol, T: DrawTarget<Color = C>> Visitor<C> for OnTarget<'t, 'c, 'r, T> {
+    type Out = ();
+    fn visit<D: Dr<C>>(&mut self, d: &D, desc: &Desc) {
+        let (t, name) = (&mut *self.t, self.name);
+        monitored(self.ctx, "draw on Framebuffer", &|| format!("{} on {}", desc.text(), name), || {
+            let _ = d.draw_on(t);
+        });
+    }
+}
+
+/// Framebuffers as targets: their fill operations called directly with degenerate, partly and wholly
+/// out-of-range areas, and degenerate / off-screen drawables drawn on them. Nothing may panic or allocate
+/// (what ends up in the buffer is C10's subject).
+fn framebuffer_drawing(ctx: &mut Ctx, rng: &mut Rng) {
+    fn near(rng: &mut Rng) -> i32 {
+        match rng.below(8) {
+            0 => rng.biased_i32(1024),
+            1 => *rng.pick(&[-1, 0, 1, 6, 7, 8, 12, 13, 14]),
+            _ => rng.i32r(-6, 20),
+        }
+    }
+    fn nsize(rng: &mut Rng) -> u32 {
+        match rng.below(8) {
+            0 => rng.biased_u32(1024),
+            1 | 2 => 0,
+            _ => rng.u32r(0, 24),
+        }
+    }
+    let np = |rng: &mut Rng| (near(rng), near(rng));
+    let prim = match rng.below(6) {
+        0 | 1 => Prim::Rect { tl: np(rng), size: (nsize(rng), nsize(rng)) },
+        2 => Prim::Circle { tl: np(rng), d: nsize(rng) },
+        3 => Prim::Ellipse { tl: np(rng), size: (nsize(rng), nsize(rng)) },
+        4 => Prim::Line { a: np(rng), b: np(rng) },
+        _ => Prim::Tri { p: [np(rng), np(rng), np(rng)] },
+    };
+    let st = StyleD { fill: if rng.chance(2, 3) { Some(1) } else { None }, stroke: if rng.chance(3, 4) { Some(2) } else { None }, width: *rng.pick(&[0u32, 1, 1, 1, 2, 3, 5, 128]), align: rng.below(3) as u8, dotted: rng.chance(1, 6) };
+    let desc = Desc::Styled(prim, st);
+    let a = Rectangle::new(Point::new(near(rng), near(rng)), Size::new(nsize(rng), nsize(rng)));
+    let len = (a.size.width as u64 * a.size.height as u64).min(4000) as usize;
+    let k = [0, len / 2, len, len + 3][rng.below(4) as usize];
+    macro_rules! fb {
+        ($c:ty, $raw:ty, $o:ty, $w:expr, $h:expr, $col:expr) => {{
+            const N: usize = (($w * <$raw>::BITS_PER_PIXEL + 7) / 8) * $h;
+            const NAME: &str = concat!("Framebuffer<", stringify!($c), ",", stringify!($o), ",", stringify!($w), "x", stringify!($h), ">");
+            let mut fb = Framebuffer::<$c, $raw, $o, $w, $h, N>::new();
+            let case = || format!("{} area {:?} ({} colours)", NAME, egmon::target::rt(&a), k);
+            monitored(ctx, "Framebuffer::fill_solid", &case, || {
+                let _ = fb.fill_solid(&a, $col);
+            });
+            monitored(ctx, "Framebuffer::fill_contiguous", &case, || {
+                let _ = fb.fill_contiguous(&a, core::iter::repeat($col).take(k));
+            });
+            monitored(ctx, "Framebuffer::clear", &case, || {
+                let _ = fb.clear($col);
+            });
+            desc.visit::<$c, _>(&mut OnTarget { t: &mut fb, ctx: &mut *ctx, name: NAME });
+            ctx.count("framebuffer_target_cases", 1);
+        }};
+    }
+    match rng.below(6) {
+        0 => fb!(BinaryColor, RawU1, LittleEndianMsb0, 13, 7, BinaryColor::On),
+        1 => fb!(Gray2, RawU2, BigEndianLsb0, 13, 7, Gray2::WHITE),
+        2 => fb!(Gray8, RawU8, LittleEndianMsb0, 13, 7, Gray8::WHITE),
+        3 => fb!(Rgb565, RawU16, BigEndianLsb0, 13, 7, Rgb565::WHITE),
+        4 => fb!(Rgb888, RawU24, LittleEndianMsb0, 7, 13, Rgb888::WHITE),
+        _ => fb!(Rgb565, RawU16, LittleEndianMsb0, 64, 48, Rgb565::WHITE),
+    }
+    ctx.nontrivial(desc.hash() ^ egmon::rng::hash_str(&format!("{:?}{}", egmon::target::rt(&a), k)));
+}
+
 fn visit_as<C: ZCol>(ctx: &mut Ctx, rng: &mut Rng, d: &Desc, extra: u32) {
     let mut r2 = rng.clone();
     d.visit::<C, _>(&mut V { ctx, rng: &mut r2, stroke_extra: extra });
@@ -569,7 +646,7 @@ fn main() {
         run.set_rule(
             "Display-scale, boundary-biased inputs (coordinates +-1024, sizes <= 1024 biased to {0,1,2,63..65,240,255..257,320,480,1024}, stroke widths 0..=128 incl. wider than the shape, Solid and Dotted stroke styles, line heights <= 1024 px / 400 %, the null font, empty strings/polylines/images): \
              every constructor, bounding_box, contains, points, pixels, draw (native-fill and default-fill counting targets, through random translated/cropped/clipped stacks with display-scale areas, on boxes incl. empty and unbounded), translate, offset, confine_radii; \
-             plus the rejection workload (Framebuffer set_pixel/pixel, ImageRaw::pixel, sub_image, raw load/store/nth with out-of-range points and indices up to i32/usize extremes). Every library call runs under the panic monitor with the allocation counter armed; iterators are consumed through step budgets. \
+             plus Framebuffers as targets (6 instantiations incl. portrait and multi-byte: fill_solid/fill_contiguous/clear called directly with zero-sized, partly and wholly out-of-range areas, degenerate and off-screen styled primitives drawn on them) and the rejection workload (Framebuffer set_pixel/pixel, ImageRaw::pixel, sub_image, raw load/store/nth with out-of-range points and indices up to i32/usize extremes). Every library call runs under the panic monitor with the allocation counter armed; iterators are consumed through step budgets. \
              This binary is built twice (default features, fixed_point). Non-trivial = non-empty bounding box (drawables) / any rejection probe; distinct = distinct case descriptions.",
         );
         run.assume("checked profile: opt-level 2 + overflow-checks + debug-assertions; a panic is attributed to the repository by its location/backtrace");
@@ -617,6 +694,8 @@ fn main() {
         });
         let nr = run.tier(40_000u64, 800_000u64);
         run.generate("rejections", nr, false, 0.2, |ctx, _idx, rng| rejections(ctx, rng));
+        let nf = run.tier(60_000u64, 1_500_000u64);
+        run.generate("framebuffer-targets", nf, false, 0.2, |ctx, _idx, rng| framebuffer_drawing(ctx, rng));
         let ncs = run.tier(100_000u64, 4_000_000u64);
         run.generate("constructors", ncs, false, 0.3, |ctx, _idx, rng| constructors(ctx, rng));
     })
